@@ -3,14 +3,18 @@ pub mod c01;
 pub mod c03;
 pub mod c04;
 pub mod c05;
+pub mod c06;
 pub mod c07;
 pub mod c08;
 pub mod c09;
+pub mod c10;
+pub mod c11;
+pub mod c13;
 pub mod c17;
 pub mod c19;
 
 use crate::engine::Prop;
 
 pub fn registry() -> Vec<Prop> {
-    vec![c01::prop(), c03::prop(), c04::prop(), c05::prop(), c07::prop(), c08::prop(), c09::prop(), c17::prop(), c19::prop()]
+    vec![c01::prop(), c03::prop(), c04::prop(), c05::prop(), c06::prop(), c07::prop(), c08::prop(), c09::prop(), c10::prop(), c11::prop(), c13::prop(), c17::prop(), c19::prop()]
 }
